@@ -277,7 +277,53 @@ def oracle_declared_domains(rng):
     return None
 
 
+def oracle_kernel_basis_zero_rows(rng):
+    """kernel_basis=True on exponent layouts for which the kernel basis of some AGE cone has an exactly-zero row (nu_j identically 0 for a cover
+    element): the exposed AGE vectors still have at most one negative entry each and the certified signomial is nonnegative"""
+    import sageopt.coniclifts as cl
+    alpha = np.array([[0.0, 0.0], [6.0, 1.0], [3.0, 0.5], [0.0, 2.0], [0.0, 1.0]])
+    with warnings.catch_warnings():
+        warnings.simplefilter('ignore')
+        for feq, numeric in ((False, False), (True, False), (False, True)):
+            t = cl.Variable(shape=(1,), name='kbz_t_%d%d' % (feq, numeric))
+            settings = sagecorr.full_settings({'kernel_basis': True, 'sum_age_force_equality': feq})
+            with sagecorr.adversarial_globals(settings):
+                try:
+                    if numeric:
+                        # a membership test with numbers only: 1 + e^(6x+y) - 10 e^(3x+y/2) + e^(2y) - e^y is negative somewhere (minimum about -24)
+                        con = cl.PrimalSageCone(np.array([1.0, 1.0, -10.0, 1.0, -1.0]), alpha, None, 'kbz', settings=dict(settings))
+                        st, val = cl.Problem(cl.MIN, cl.Expression([0]), [con]).solve(verbose=False)
+                    else:
+                        cexpr = cl.Expression([1.0, 1.0, -t[0], 1.0, -1.0])
+                        con = cl.PrimalSageCone(cexpr, alpha, None, 'kbz', settings=dict(settings))
+                        st, val = cl.Problem(cl.MAX, t[0], [con, t <= 50]).solve(verbose=False)
+                except RuntimeError:
+                    continue
+            if st != 'solved' or not math.isfinite(val):
+                continue
+            c = np.asarray(con.c.value, dtype=float)
+            vecs = [('constrained coefficients', c)] + [('AGE vector %d' % i, np.asarray(av.value, dtype=float)) for i, av in con.age_vectors.items()]
+            for i, av in con.age_vectors.items():
+                a = np.asarray(av.value, dtype=float)
+                neg = [j for j in range(len(a)) if a[j] < -1e-6 and j != i]
+                if neg:
+                    return ('kernel_basis=True, exponents %s, c = (1, 1, -t, 1, -1): after maximising t (= %g) the AGE vector %d is %s, negative off its own index'
+                            % (alpha.tolist(), val, i, a.tolist()))
+            for u in itertools.product(np.linspace(-2.0, 1.0, 13), np.linspace(-3.0, 2.0, 21)):
+                ex = np.exp(alpha @ np.array(u))
+                for nm, a in vecs:
+                    fv = float(a @ ex)
+                    if fv < -1e-5 * (1 + float(np.abs(a) @ ex)):
+                        return ('kernel_basis=True, exponents %s: t = %g is certified but the signomial with the %s %s is %g at x = %s' % (alpha.tolist(), val, nm, a.tolist(), fv, list(u)))
+    return None
+
+
 def run(ctx):
+    why = oracle_kernel_basis_zero_rows(ctx.rng)
+    ctx.evaluations += 2
+    ctx.suites['kernel_basis_zero_rows'] = {'cases': 2, 'failure': why}
+    if why:
+        ctx.problem('oracle', 'property fails on the implementation: ' + why, inputs={'suite': 'kernel_basis_zero_rows'}, failing_input_found=True)
     why = oracle_declared_domains(ctx.rng)
     ctx.evaluations += 4
     ctx.suites['declared_domains'] = {'cases': 4, 'failure': why}
